@@ -18,6 +18,7 @@ RULE = (
     "old token lies after it; two-range (ReplaceAround) maps are labelled. Distinct by (schema, document before, step)."
 )
 ASSUMPTIONS = [
+    "steps have well-formed geometry (from <= gapFrom <= gapTo <= to, 0 <= insert <= slice size, from <= to): a ReplaceAroundStep whose gap lies outside its range applies in the library (as upstream) but reports a range of negative length; such hand-made steps are outside the domain",
     "a close token is compared by kind only (after a join the closing token belongs to the node that was opened on the left); open, leaf and "
     "character tokens are compared with full markup for replace-type steps and by (kind, type, character) for mark/attribute steps, which "
     "report the empty map but legitimately change markup",
@@ -95,7 +96,21 @@ def _strong(tok: tuple) -> tuple:
     return tok
 
 
+def _well_formed(step) -> bool:  # noqa: ANN001
+    """from <= gapFrom <= gapTo <= to, 0 <= insert <= slice size: the constructor's implicit precondition (every caller
+    in the library and every documented use respects it; apply() does not re-check it, upstream neither)."""
+    kind = type(step).__name__
+    if kind == "ReplaceAroundStep":
+        return step.from_ <= step.gap_from <= step.gap_to <= step.to and 0 <= step.insert <= step.slice.size
+    if kind in ("ReplaceStep", "AddMarkStep", "RemoveMarkStep"):
+        return step.from_ <= step.to
+    return True
+
+
 def check_step(rs, ctx: Ctx, step, before_p: dict, after_p: dict, lib_map=None, tag: str = "") -> None:  # noqa: ANN001
+    if not _well_formed(step):
+        ctx.label("skipped:malformed-step-geometry")
+        return
     lt = rs.leaf_types
     T0 = P.tokens_of(before_p["c"], lt)
     T1 = P.tokens_of(after_p["c"], lt)
